@@ -27,10 +27,13 @@ static unsigned char wire[1 << 17];
 static size_t wire_len;
 static int sender_dir;            /* 0: client sends, server receives */
 static size_t plain_total;
+static size_t plain_base;          /* application bytes the receiver had already been given when the recording started */
 static tp_ep *RX;
 static tp_snap rx_snap;
 static tp_fifo sink;
 static int collecting;
+static int scen;                  /* 0: records right after the handshake; 1: after a renegotiation (second epoch); 2: the receiver has asked
+                                     for closure before the records arrive; 3: the stream ends with the sender's close_notify */
 
 static void
 rec_hook(void *arg, const rm_record *r, const unsigned char *plain)
@@ -126,11 +129,25 @@ judge(const unsigned char *stream, size_t len, size_t limit_p, size_t must_fail_
 	dl = feed(stream, len, chunk, r, &consumed, must_fail_by, &in_time);
 	/* (1) prefix */
 	for (i = 0; i < dl && i < sizeof delivered; i ++) {
-		if (delivered[i] != tp_stream_byte(RX->rx_key, i)) {
+		if (delivered[i] != tp_stream_byte(RX->rx_key, plain_base + i)) {
 			snprintf(what, sizeof what, "delivered byte %zu is not the byte the sender wrote", i);
 			TP_VIOL("delivered-not-prefix", what);
 			return;
 		}
+	}
+	if (scen == 2) {
+		/* closing receiver: nothing is delivered any more, whatever arrives */
+		if (dl != 0) { TP_VIOL("delivered-after-local-close", "application data was delivered after the receiver had asked for closure"); return; }
+		expect_len = 0;
+	}
+	if (expect_accept_all && scen == 3 && stream == wire) {
+		/* untouched stream ending with close_notify: everything delivered, then an orderly end */
+		if (dl != expect_len || !tp_ep_closed(RX) || br_ssl_engine_last_error(RX->eng) != 0) {
+			snprintf(what, sizeof what, "untouched stream with close_notify: delivered %zu of %zu, closed=%d err=%d",
+				dl, expect_len, tp_ep_closed(RX), br_ssl_engine_last_error(RX->eng));
+			TP_VIOL("conformant-record-refused", what);
+		} else n_accepted_ok ++;
+		return;
 	}
 	if (expect_accept_all) {
 		if (dl != expect_len || tp_ep_closed(RX)) {
@@ -214,7 +231,8 @@ main(int argc, char **argv)
 		rm_cipher base_cs;
 
 		vf_rng_init(&r, (uint64_t)seed, (uint64_t)(pi * 131 + round));
-		sender_dir = (pi + round) & 1;
+		sender_dir = (pi + (round >> 1)) & 1;
+		scen = (round & 1) ? 1 + ((pi + (round >> 1)) % 3) : 0;
 		layout = (int)vf_below(&r, 3);
 		tp_cfg_default(&cc, 0); tp_cfg_default(&sc, 1);
 		cc.layout = sc.layout = layout;
@@ -228,8 +246,8 @@ main(int argc, char **argv)
 		cc.impl_set = sc.impl_set = (pi + round + (int)seed) % 4;
 		vf_distinct("impl_sets", "%04x %d", pv->s->id, cc.impl_set);
 		vf_bytes(&r, cc.seed, 32); vf_bytes(&r, sc.seed, 32);
-		snprintf(base_case, sizeof base_case, "seed=%lld pair=%d round=%d suite=%s(%04x) ver=%04x sender=%s layout=%d",
-			seed, pi, round, pv->s->name, pv->s->id, pv->version, sender_dir ? "server" : "client", layout);
+		snprintf(base_case, sizeof base_case, "seed=%lld pair=%d round=%d scenario=%d suite=%s(%04x) ver=%04x sender=%s layout=%d",
+			seed, pi, round, scen, pv->s->name, pv->s->id, pv->version, sender_dir ? "server" : "client", layout);
 		snprintf(tp_case, sizeof tp_case, "%s", base_case);
 
 		tp_pair_init(&P, (uint64_t)seed, (uint64_t)pi, TP_CHUNK_WHOLE);
@@ -243,6 +261,25 @@ main(int argc, char **argv)
 		if (!tp_handshake(&P, 1000000)) { TP_VIOL("setup:handshake-incomplete", "reference handshake failed"); goto next; }
 		vf_stat("cases", 1);
 		RX = sender_dir == 0 ? &P.s : &P.c;
+		if (scen == 1) {
+			/* second epoch: a completed renegotiation (asked for by either side) precedes the attacked records */
+			int e0 = PM.m.rm.cs[0].epoch, e1 = PM.m.rm.cs[1].epoch;
+			tp_run_data(&P, 20, 20, TP_W_WHOLE, 100000);
+			tp_settle(&P, 100000);
+			if (!tp_act_reneg((pi & 2) ? &P.s : &P.c)) { TP_VIOL("setup:renegotiation-refused", "renegotiation refused on an idle connection"); goto next; }
+			tp_settle(&P, 2000000);
+			if (!tp_ep_ready(&P.c) || !tp_ep_ready(&P.s) || PM.m.rm.cs[0].epoch != e0 + 1 || PM.m.rm.cs[1].epoch != e1 + 1) {
+				TP_VIOL("setup:renegotiation-incomplete", "reference renegotiation did not complete"); goto next;
+			}
+			vf_stat("scenario_second_epoch", 1);
+		}
+		if (scen == 2) {
+			/* the receiver's application has asked for closure: what arrives now is discarded, not delivered - but still
+			   has to authenticate */
+			br_ssl_engine_close(RX->eng);
+			tp_calls ++; tp_check(RX, "close");
+			vf_stat("scenario_receiver_closing", 1);
+		}
 		{
 			tp_ep *TX = sender_dir == 0 ? &P.c : &P.s;
 			tp_fifo *f = sender_dir == 0 ? &P.c2s : &P.s2c;
@@ -251,6 +288,7 @@ main(int argc, char **argv)
 			tp_snap_take(&rx_snap, RX);
 			/* sender writes 3..5 short records */
 			nrecs = 0; collecting = 1;
+			plain_base = TX->tx_done;
 			nwrites = 3 + (int)vf_below(&r, 3);
 			for (w = 0; w < nwrites; w ++) {
 				size_t wl = 1 + vf_below(&r, rounds > 1 ? 120 : 40);
@@ -261,10 +299,19 @@ main(int argc, char **argv)
 					tm_tap(&PM.m, sender_dir, f->data + f->wr - got, got);
 				}
 			}
+			if (scen == 3) {
+				/* the sender's application closes: its close_notify is the last record of the attacked stream */
+				tp_act_close(TX);
+				while (br_ssl_engine_current_state(TX->eng) & BR_SSL_SENDREC) {
+					size_t got = tp_act_sendrec(TX, f, 100000);
+					tm_tap(&PM.m, sender_dir, f->data + f->wr - got, got);
+				}
+				vf_stat("scenario_sender_close_notify", 1);
+			}
 			collecting = 0;
 			wire_len = tp_fifo_len(f);
 			memcpy(wire, f->data + f->rd, wire_len);
-			plain_total = TX->tx_done;
+			plain_total = TX->tx_done - plain_base;
 		}
 		if (nrecs == 0 || recs[nrecs - 1].woff + recs[nrecs - 1].wlen != wire_len
 			|| recs[nrecs - 1].poff + recs[nrecs - 1].plen != plain_total)
@@ -309,8 +356,10 @@ main(int argc, char **argv)
 			memcpy(work + o + l, wire + o, l);
 			memcpy(work + o + 2 * l, wire + o + l, wire_len - o - l);
 			snprintf(fault_desc, sizeof fault_desc, "duplicate rec=%d", k);
-			judge(work, wire_len + l, recs[k].poff + recs[k].plen, o + 2 * l, 0, 0, &r);
-			vf_stat("faults_edit", 1);
+			if (!(scen == 3 && k == nrecs - 1)) {     /* (a copy of the final close_notify arrives after the orderly end) */
+				judge(work, wire_len + l, recs[k].poff + recs[k].plen, o + 2 * l, 0, 0, &r);
+				vf_stat("faults_edit", 1);
+			}
 			/* swap k and k+1 */
 			if (k + 1 < nrecs) {
 				size_t l2 = recs[k + 1].wlen;
@@ -377,7 +426,7 @@ main(int argc, char **argv)
 			size_t pl = 23, fl;
 			rm_forge_opts fo;
 			rm_cipher cs;
-			for (i = 0; i < pl; i ++) plain[i] = tp_stream_byte(RX->rx_key, i);
+			for (i = 0; i < pl; i ++) plain[i] = tp_stream_byte(RX->rx_key, plain_base + i);
 			if (base_cs.enc <= 2) {
 				int pad;
 				size_t bl = base_cs.enc == 0 ? 8 : 16;
@@ -509,7 +558,7 @@ main(int argc, char **argv)
 					size_t L = lens[li], z;
 					int variant;
 					if ((li + (size_t)pi) % 2 && L > 300) continue;        /* the large ones for every second pair */
-					for (z = 0; z < L; z ++) bigp[z] = tp_stream_byte(RX->rx_key, z);
+					for (z = 0; z < L; z ++) bigp[z] = tp_stream_byte(RX->rx_key, plain_base + z);
 					for (variant = 0; variant < 3; variant ++) {
 						cs = base_cs; rm_forge_defaults(&fo);
 						if (variant == 1) fo.bad_mac_index = (int)vf_below(&r, (uint32_t)(base_cs.enc <= 2 ? base_cs.mac_len : rm_tag_len(base_cs.enc)));
@@ -544,7 +593,7 @@ main(int argc, char **argv)
 			static const int types[] = { 20, 21, 22, 23, 24, 0, 255 };
 			static const int lens[] = { 0, 1, 2, 7, 8, 15, 16, 17, 24, 32, 48, 64 };
 			size_t ti, li;
-			for (k = 0; k <= nrecs; k ++) {
+			for (k = 0; k <= nrecs - (scen == 3); k ++) {      /* (nothing is judged after the sender's close_notify) */
 				size_t o = k < nrecs ? recs[k].woff : wire_len;
 				size_t lim = k < nrecs ? recs[k].poff : plain_total;
 				for (ti = 0; ti < sizeof types / sizeof types[0]; ti ++) for (li = 0; li < sizeof lens / sizeof lens[0]; li ++) {
